@@ -1,6 +1,6 @@
 ENGINES = [
     {'name': 'mirsym', 'path': '/verif/mirsym',
-     'serves_properties': ['C17', 'C18', 'C19'],
+     'serves_properties': ['C01', 'C12', 'C17', 'C18', 'C19'],
      'kind_free_text': 'symbolic executor over the MIR that rustc emits for /repo\'s working tree (regenerated per tree state); std modelled at the call boundary; z3 QF_BV decides every branch and every obligation; counterexamples replayed natively through /verif/replay'},
 ]
 NOTES = 'Every check: exit 0 = held for all inputs inside the stated bounds (KNOWN-FINDING lines allowed); exit 1 = natively reproducing violation; exit 2 = inconclusive (unsupported construct, solver unknown, model/native mismatch, vacuous harness) and is never reported as a pass.'
@@ -24,10 +24,22 @@ CHECKS['C19'] = {
     'note': 'git subprocess and ignore matcher are environment models (numstat grammar, arbitrary predicate); counters < 2^20 so that u32 sums cannot overflow; transcripts empty',
     'technique': 'MIR symbolic execution + z3 (bounded), native replay of counterexamples',
 }
+CHECKS['C01'] = {
+    'text': 'Kernel claim. Bounded symbolic execution of the real `git diff -U0` readers: for every patch inside the bounds (grammar model of git\'s output with fully symbolic body-line content, symbolic hunk starts, quoted / spaced names, added / deleted files) the solver decides that the per-file added-line and pure-insertion maps equal the union of the hunk headers\' new ranges. Counterexamples are replayed against the compiled parser.',
+    'design_ref': 'DESIGN.md §4 C01',
+    'note': 'only stage K1 of the pipeline is decided here; projection to lines and the tracker are decided under C16, the committed/unstaged split under C04; file discovery, blame and notes I/O are outside',
+    'technique': 'MIR symbolic execution + z3 (bounded) over a grammar model of git diff output, native replay',
+}
+CHECKS['C12'] = {
+    'text': 'Kernel claim. Bounded symbolic execution of the real profile-pinning code: for every argument vector inside the bounds and each internal profile the solver decides that every neutralising option is present before `--`, no conflicting user option survives before `--`, tokens before the subcommand and from `--` on are untouched, other user options are preserved in order, the General profile is the identity, and internal calls neutralise core.hooksPath exactly when the guard is active.',
+    'design_ref': 'DESIGN.md §4 C12',
+    'note': 'oracle = the list of configuration dimensions C12 names, with git\'s last-option-wins rule; which call sites use which profile is not decided; discovery (K3) not encoded',
+    'technique': 'MIR symbolic execution + z3 (bounded), native replay',
+}
 _PENDING = 'check not built yet in this round (under construction; see DESIGN.md §4)'
 NOT_APPLICABLE = {
-    'C01': _PENDING, 'C02': _PENDING, 'C03': _PENDING, 'C04': _PENDING, 'C05': _PENDING, 'C06': _PENDING,
-    'C07': _PENDING, 'C08': _PENDING, 'C09': _PENDING, 'C12': _PENDING, 'C14': _PENDING, 'C15': _PENDING,
+    'C02': _PENDING, 'C03': _PENDING, 'C04': _PENDING, 'C05': _PENDING, 'C06': _PENDING,
+    'C07': _PENDING, 'C08': _PENDING, 'C09': _PENDING, 'C14': _PENDING, 'C15': _PENDING,
     'C16': _PENDING, 'C20': _PENDING,
     'C10': 'convergence of notes across clones is decided by git\'s notes-merge / ref-transaction semantics over several repositories; git-ai\'s part is a fixed sequence of subprocess calls with no branch the solver could decide (DESIGN.md §7)',
     'C11': 'interleavings of processes over a file system and git ref locks; neither Kani nor the MIR executor models OS-level concurrency (DESIGN.md §7)',
